@@ -641,6 +641,12 @@ def inbound(ctx, info, rng, nontrivial, samples, model_err, dist):
         ("inline-only", [], ["in-inline", "in-inline-2"]),
         ("zones", [IV("S1", "in-alpha", s, s + h, off=330), IV("S2", "in-beta", s + h, None, off=-60)], ["in-inline"]),
         ("equal-from", [IV("Sb", "in-beta", s, s + h), IV("Sa", "in-alpha", s, s + 2 * h)], []),
+        # windows whose ends lie outside what an int64 count of nanoseconds can hold ("never expires" written as year 9999, "always valid" as
+        # year 1000): a secret is valid at every instant between its bounds, however far the bounds are
+        ("until-year-9999", [IV("S1", "in-alpha", s, 253402300799 * NS), IV("S2", "in-beta", s + h, s + 2 * h)], []),
+        ("from-year-1000", [IV("S1", "in-alpha", -30610224000 * NS, s + h), IV("S2", "in-beta", s + h)], []),
+        ("both-ends-far", [IV("S1", "in-alpha", -30610224000 * NS, 253402300799 * NS)], ["in-inline"]),
+        ("until-year-2263", [IV("S1", "in-alpha", s, 9246182400 * NS)], []),
     ]
     n_rand = 6 if ctx.tier == "quick" else 300
     for k in range(n_rand):
